@@ -358,12 +358,12 @@ fn init_case(rep: &mut Report, case: u64, g: &mut Sm64) {
 
 pub fn run(ctx: &Ctx, rep: &mut Report) {
     let kinds = [Kind::Mh, Kind::MhFreshProposal, Kind::Gibbs, Kind::Hmc, Kind::Hmc32, Kind::Nuts, Kind::HmcWide];
-    for c in ctx.case_ids("bytes", 96, 4800) {
+    for c in ctx.case_ids("bytes", 96, 20_000) {
         let mut g = ctx.rng("bytes", c);
         let kind = kinds[(c as usize / 4 + c as usize) % kinds.len()];
         case(ctx, rep, c, &mut g, kind);
     }
-    for c in ctx.case_ids("init", 200, 20_000) {
+    for c in ctx.case_ids("init", 200, 200_000) {
         let mut g = ctx.rng("init", c);
         init_case(rep, c, &mut g);
     }
